@@ -238,14 +238,38 @@ def cases_for(tier):
                 orders = orders[::7]
             for o in orders:
                 cases.append({"kind": "direct", "shape": n, "elem": "scalar", "tag": tag, "order": o, "bound": 0})
-    nested = [[2, 2], [1, 0, 2]] if tier == "quick" else [[2, 2], [2, 3], [1, 0, 2], [[2, 1], [1]], [[1, 1], [2]], [0, 0]]
+    nested = [[2, 2], [1, 0, 2]] if tier == "quick" else [[2, 2], [2, 3], [1, 0, 2], [[2, 1], [1]], [[1, 1], [2]], [0, 0], [11, 2],
+                                                                   [2, 11]]
     for sh in nested:
+        if 11 in sh:
+            continue  # two-digit inner indices: only through the flat gather with explicit orders below
         cases.append({"kind": "direct", "shape": sh, "elem": "scalar", "tag": "0", "bound": 0 if tier == "quick" else 1})
     # nested scatter collected by ONE gather of depth 2/3 (flat cross product)
-    flat = [[2, 2], [1, 0, 2]] if tier == "quick" else [[2, 2], [2, 3], [3, 2], [1, 0, 2], [0, 0], [[2, 1], [1]], [[1, 1], [2]], [11, 2]]
+    flat = [[2, 2], [1, 0, 2], [11, 2]] if tier == "quick" else [[2, 2], [2, 3], [3, 2], [1, 0, 2], [0, 0], [[2, 1], [1]], [[1, 1], [2]], [11, 2]]
     for sh in flat:
+        if sh == [11, 2]:
+            # 13 leaves with a two-digit inner index: explicit arrival orders (identity, reverse, rotations, adjacent swaps)
+            # x position of the size token, instead of all 13! orders
+            tags = [f"0.{i}.{j}" for i, n in enumerate(sh) for j in range(n)]
+            perms = {tuple(tags), tuple(reversed(tags))}
+            for r in range(1, len(tags)):
+                perms.add(tuple(tags[r:] + tags[:r]))
+            for i in range(len(tags) - 1):
+                p = tags[:]
+                p[i], p[i + 1] = p[i + 1], p[i]
+                perms.add(tuple(p))
+            perms = sorted(perms)
+            if tier == "quick":
+                perms = perms[::3]
+            for p in perms:
+                for pos in (0, len(tags) // 2, len(tags)):
+                    seq = [(0, t) for t in p]
+                    seq.insert(pos, (1, "0"))
+                    seq += [(0, "TERM"), (1, "TERM")]
+                    cases.append({"kind": "direct", "shape": sh, "elem": "scalar", "tag": "0", "flat": True, "order": seq, "bound": 0})
+            continue
         cases.append({"kind": "direct", "shape": sh, "elem": "scalar", "tag": "0", "flat": True,
-                      "bound": 0 if (tier == "quick" or sh == [11, 2]) else 1})
+                      "bound": 0 if tier == "quick" else 1})
     return cases
 
 
